@@ -108,6 +108,51 @@ impl World {
         })
     }
 
+    /// Starts an instance whose events go to the process-wide recorder (multi-threaded runs).
+    pub async fn start_global(capacity: usize, out: Option<Out>) -> Arc<World> {
+        let start = Instant::now();
+        let rec = match out {
+            None => Recorder::new(start),
+            Some(out) => Recorder::with_sink(start, Box::new(move |event: &Value| write_event(&out, event.clone()))),
+        };
+        deltio::verif::install_global(Some(Arc::clone(&rec)));
+        let _ = capacity;
+        let app = Deltio::new();
+        let (topics, subs, registry) = app.verif_parts();
+        let (conn_tx, conn_rx) = tokio::sync::mpsc::unbounded_channel::<DuplexStream>();
+        let incoming = UnboundedReceiverStream::new(conn_rx).map(Ok::<_, std::io::Error>);
+        let router = app.server_builder();
+        tokio::spawn(async move {
+            let _ = router.serve_with_incoming(incoming).await;
+        });
+        let channel = Endpoint::try_from("http://in.memory")
+            .unwrap()
+            .connect_with_connector(service_fn(move |_| {
+                let conn_tx = conn_tx.clone();
+                async move {
+                    let (client, server) = tokio::io::duplex(1 << 20);
+                    conn_tx
+                        .send(server)
+                        .map_err(|_| std::io::Error::new(std::io::ErrorKind::Other, "server gone"))?;
+                    Ok::<_, std::io::Error>(TokioIo::new(client))
+                }
+            }))
+            .await
+            .expect("in-memory connect");
+        Arc::new(World {
+            publisher: PublisherClient::new(channel.clone()),
+            subscriber: SubscriberClient::new(channel),
+            topics,
+            subs,
+            registry,
+            rec,
+            deliveries: Mutex::new(HashMap::new()),
+            inputs: std::sync::atomic::AtomicBool::new(false),
+            app,
+            start,
+        })
+    }
+
     pub fn ev(&self, kind: &str, fields: Value) {
         let mut fields = fields;
         if kind == "inv" && self.inputs.load(std::sync::atomic::Ordering::SeqCst) {
